@@ -1,5 +1,6 @@
 import Aldy.Driver.Views
 import Aldy.Model.Minor
+import Aldy.Model.MinorSpec
 
 namespace Aldy.Driver
 open Lean Aldy.Wire
@@ -30,5 +31,13 @@ def opMinorReadout (j : Json) : Except String Json := do
   let res := readOut I (fun v => act.contains v.name)
   pure (listJ (fun (c : CalledMinor) => objJ [("major", strJ c.major), ("minor", strJ c.minor),
       ("added", listJ mutJ c.added), ("missing", listJ mutJ c.missing)]) res)
+
+/-- spec level (Props/C04Spec): the documented objective `specMinor` of the assignment given by the active variable
+names - by `minor_optimum_score_is_spec` the objective of an optimum that reports it -/
+def opMinorSpec (j : Json) : Except String Json := do
+  let I ← jMinorInst j
+  let act ← jList jStr (← field j "active")
+  let defsConsidered := I.slots.all fun cs => cs.1.defMuts.all fun m => I.mutations.contains m
+  pure (objJ [("spec", ratJ (I.specMinor (fun v => act.contains v.name))), ("defs_considered", boolJ defsConsidered)])
 
 end Aldy.Driver
